@@ -96,14 +96,6 @@ Proof.
   match goal with |- post _ (if ?c then _ else _) => destruct c end; [exact I|]. apply td_set_ty.
 Qed.
 
-Lemma post_unify a b : post (fun u => td (fst (fst u)) = td a /\ td (snd (fst u)) = td b) (unify a b).
-Proof.
-  unfold unify. cbv zeta. destruct (cty_eqb _ _); [cbn [post fst snd]; rewrite !td_set_ty; auto|].
-  destruct (ty_of a) as [| [] | [] | | | |]; destruct (ty_of b) as [| [] | [] | | | |]; try exact I;
-    (eapply post_bind; [first [apply post_coc_u|apply post_coc_s]|]; intros e' He'; cbn [post fst snd];
-     rewrite !td_set_ty; auto).
-Qed.
-
 (* ---------------------------------------------------------------- constrain_type *)
 
 Lemma post_constrain_type : forall f n e t, td e <= n -> n <= f -> post (fun e' => td e' <= n) (constrain_type f e t).
@@ -160,6 +152,30 @@ Proof.
            end; try exact Hleaf; try exact I; cbn [post td]; lia.
 Qed.
 
+(* fix 64720dd: the deep versions run constrain_type on compound operands: they need fuel for the depth *)
+Lemma post_coc_u_deep f n e t : td e <= n -> n <= f -> post (fun e' => td e' <= n) (coc_unsigned_deep f e t).
+Proof.
+  intros He Hn. unfold coc_unsigned_deep. destruct (_ && _); [exact I|].
+  destruct (_ && _); [apply post_constrain_type; assumption|].
+  eapply post_weaken; [apply post_coc_u|]. intros e' E. cbv beta in E. lia.
+Qed.
+
+Lemma post_coc_s_deep f n e t : td e <= n -> n <= f -> post (fun e' => td e' <= n) (coc_signed_deep f e t).
+Proof.
+  intros He Hn. unfold coc_signed_deep. destruct (_ && _); [exact I|].
+  destruct (_ && _); [apply post_constrain_type; assumption|].
+  eapply post_weaken; [apply post_coc_s|]. intros e' E. cbv beta in E. lia.
+Qed.
+
+Lemma post_unify f n a b : td a <= n -> td b <= n -> n <= f ->
+  post (fun u => td (fst (fst u)) <= n /\ td (snd (fst u)) <= n) (unify f a b).
+Proof.
+  intros Ha Hb Hn. unfold unify. cbv zeta. destruct (cty_eqb _ _); [cbn [post fst snd]; rewrite !td_set_ty; auto|].
+  destruct (ty_of a) as [| [] | [] | | | |]; destruct (ty_of b) as [| [] | [] | | | |]; try exact I;
+    (eapply post_bind; [first [apply (post_coc_u_deep f n)|apply (post_coc_s_deep f n)]; assumption|];
+     intros e' He'; cbn [post fst snd]; rewrite !td_set_ty; auto).
+Qed.
+
 Lemma post_check_type f n e t : td e <= n -> n <= f -> post (fun e' => td e' <= n) (check_type f e t).
 Proof.
   intros He Hn. unfold check_type. eapply post_bind; [apply post_constrain_type; eassumption|].
@@ -170,10 +186,10 @@ Lemma post_constrain_to_i32 : forall f n b, td b <= n -> n <= f -> post (fun b' 
 Proof.
   induction f as [|f IH]; intros n b Hb Hn; [pose proof (td_pos b); lia|].
   cbn [constrain_to_i32].
-  eapply post_bind with (Q := fun b1 => td b1 = td b).
-  { destruct (_ || _); [apply post_coc_s|reflexivity]. }
+  eapply post_bind with (Q := fun b1 => td b1 <= n).
+  { destruct (_ || _); [apply (post_coc_s_deep (S f) n); assumption|exact Hb]. }
   intros b1 Hb1. eapply post_bind; [|intros b2 Hb2; cbn [post]; rewrite td_set_ty; exact Hb2].
-  destruct b1 as [i ty]. cbn [inner_of ty_of]. rewrite <- Hb1 in Hb. clear Hb1.
+  clear Hb. rename Hb1 into Hb. destruct b1 as [i ty]. cbn [inner_of ty_of].
   pose proof (td_pos (TE i ty)) as Hp. destruct n as [|n]; [lia|]. assert (Hn' : n <= f) by lia.
   destruct i; try exact Hb; cbn [td] in Hb.
   - eapply post_bind; [apply (post_mapM _ (fun x => td x <= n) (fun x => td x <= n)); [intros x Hx; apply IH; assumption|]|].
@@ -298,7 +314,7 @@ Hint Resolve np_concrete_of np_expect_array_type np_expect_struct_type np_expect
   np_expect_signed_num_type np_expect_bool_or_num_type np_check_pattern : npdb.
 
 Ltac pstep :=
-  first [ apply post_unify | apply post_coc_u | apply post_coc_s
+  first [ apply post_coc_u | apply post_coc_s
         | apply post_nf; solve [auto with npdb] ].
 
 Ltac post_go :=
